@@ -102,7 +102,7 @@ TABLE['C03'] = {
     'trusted_base': ['PyVC (pyvc/*.py) incl. dict/set model', 'z3 5.1.0'],
     'not_covered': ['per-builtin emitters (make_compile, ninja_link, ...) listing every consumed file', 'multitarget_rule stamp files', 'Edge registration, BuildRuleHandler dispatch',
                     'default-set bookkeeping (DefaultOutputs), test/install/alias targets', 'rebuild behaviour of make/ninja given the graph'],
-    'level_text': 'Deductive proof that Makefile.rule and NinjaFile.build never give a target text a second producing rule and record exactly the call\'s targets (for all target lists and all previous states), and that ninja command_build passes every given dependency (plus PHONY) to the single build statement it emits. Only these data-structure and emitter kernels of the property are carried; the per-builtin dependency lists and rebuild behaviour are not.',
+    'level_text': 'Deductive proof that Makefile.rule and NinjaFile.build never give a target text a second producing rule and record exactly the call\'s targets (for all target lists and all previous states), and that ninja command_build passes every given dependency (plus PHONY) to the single build statement it emits. Only these data-structure and emitter kernels of the property are carried; the per-builtin dependency lists and rebuild behaviour are not. Bounded (real pipeline): a generated project with an explicitly described graph (generated header, build steps with files/extra_deps/command inputs, a symlink copy, a test-only program) has exactly the described prerequisites and default set in both backends.',
     'level_note': 'Trusted: PyVC, z3. Partial claim: duplicate-output rejection and command_build only; everything listed under not_covered is unverified.',
 }
 
